@@ -27,6 +27,23 @@ def dof_role(F, ev):
                 for x in walk(nu):
                     if x[0] == "field" and x[1][0] == "param":
                         hits.add(x[2])
+    if not hits:
+        # the quantile may be computed in a helper that receives the degrees of freedom as an argument: look at the
+        # call through the methods of the statistics type (helpers inlined)
+        from effects import iteration_effects
+        for mb in inherent_methods(F, ADT_STATS):
+            if not (mb.j.get("inputs") and ADT_STATS in mb.j["inputs"][0]):
+                continue
+            me = ("param", mb.key, 1)
+            try:
+                effs = list(iteration_effects(ev, Env(mb)))
+            except RecursionError:
+                continue
+            for e in effs:
+                if e.kind == "call" and "StudentsT" in e.cid and e.name == "ppf" and len(e.raw) >= 2:
+                    for x in walk(e.raw[1]):
+                        if x[0] == "field" and x[1] == me:
+                            hits.add(x[2])
     if len(hits) != 1:
         raise AnchorMissing("degrees-of-freedom role: fields reaching StudentsT::ppf = %s" % sorted(hits))
     return hits.pop()
